@@ -276,6 +276,11 @@ func genProp(rng *rand.Rand, tier string) []interface{} {
 			name = "distinct"
 			perm := rng.Perm(srv)
 			ts = treeSpec{Shape: randomShape(rng, srv, i%3), Place: perm}
+			if i%8 == 0 && srv > 2 {
+				// the root's service made a tree, extended it by hand, and made a tree again
+				name = "extended"
+				ts.Cut = 1 + rng.Intn(srv-1)
+			}
 		case 1: // more nodes than servers: servers repeat, explicit node ids
 			name = "repeat"
 			nodes := srv + 1 + rng.Intn(6)
